@@ -206,6 +206,18 @@ class Parser:
                 self.eat()
             self.eat(";")
             return None
+        if self.at("const") and self.peek(1)[0] == "id":
+            # a local constant: `const NAME: T = EXPR;` reads as an immutable let
+            self.eat()
+            name = self.eat()[1]
+            ty = None
+            if self.at(":"):
+                self.eat(); ty = self.parse_type(stop=("=", ";"))
+            self.eat("=")
+            e = self.parse_expr()
+            self.eat(";")
+            stmts.append(("let", ("pid", name), ty, e))
+            return None
         if self.at("fn"):
             self.eat()
             name = self.eat()[1]
